@@ -2,7 +2,7 @@
 
 use futures_core::Stream;
 
-use super::core::{AsyncWaiter, STATE_CANCELLED, STATE_WAITING};
+use super::core::{AsyncWaiter, STATE_CANCELLED, STATE_SUCCESS_SPACE, STATE_WAITING};
 use super::{AsyncReceiver, AsyncSender};
 use crate::error::{BatchSendErrorReason, SendBatchError, SendError, TrySendError};
 use crate::RecvError;
@@ -40,19 +40,33 @@ impl<'a, T: Send> SendFuture<'a, T> {
   }
 }
 
-impl<T: Send> Drop for SendFuture<'_, T> {
-  fn drop(&mut self) {
+impl<T: Send> SendFuture<'_, T> {
+  /// Unlinks a queued registration. If this future had already consumed a
+  /// wake-up (SUCCESS_SPACE) that it is not going to use, the wake-up is passed
+  /// on to the next parked sender so the freed slot is not left unannounced.
+  fn cancel_registration(&mut self) {
     if self.is_registered {
-      let _ = self.state.compare_exchange(
+      self.is_registered = false;
+      let prev = self.state.compare_exchange(
         STATE_WAITING,
         STATE_CANCELLED,
         Ordering::SeqCst,
         Ordering::SeqCst,
       );
-      let mut guard = self.sender.shared.internal.lock();
+      let shared = &self.sender.shared;
+      let mut guard = shared.internal.lock();
       let state_ptr = &self.state as *const AtomicU8;
       guard.waiting_async_senders.retain(|w| w.state != state_ptr);
+      if prev == Err(STATE_SUCCESS_SPACE) && !guard.is_full(shared.capacity) {
+        guard.wake_one_sender();
+      }
     }
+  }
+}
+
+impl<T: Send> Drop for SendFuture<'_, T> {
+  fn drop(&mut self) {
+    self.cancel_registration();
   }
 }
 
@@ -62,6 +76,12 @@ impl<'a, T: Send> Future for SendFuture<'a, T> {
   fn poll(mut self: Pin<&mut Self>, cx: &mut Context<'_>) -> Poll<Self::Output> {
     let this = unsafe { self.as_mut().get_unchecked_mut() };
     let state_ptr = &this.state as *const AtomicU8;
+
+    // A handle that was itself closed rejects further operations on it.
+    if this.sender.closed.load(Ordering::Relaxed) {
+      this.cancel_registration();
+      return Poll::Ready(Err(SendError::Closed));
+    }
 
     'poll_loop: loop {
       if this.is_registered {
@@ -730,6 +750,12 @@ impl<'a, T: Send> Future for RecvFuture<'a, T> {
     let this = unsafe { self.as_mut().get_unchecked_mut() };
     let state_ptr = &this.state as *const AtomicU8;
 
+    // A handle that was itself closed rejects further operations on it.
+    if this.receiver.closed.load(Ordering::Relaxed) {
+      this.cancel_registration();
+      return Poll::Ready(Err(RecvError::Disconnected));
+    }
+
     if this.is_registered {
       let st = this.state.load(Ordering::SeqCst);
       if (st & 0x01) != 0 {
@@ -740,15 +766,27 @@ impl<'a, T: Send> Future for RecvFuture<'a, T> {
             .waiting_async_receivers
             .retain(|w| w.state != state_ptr);
           drop(guard);
-          return Poll::Ready(Err(RecvError::Disconnected));
+          // Woken CLOSED: fall through and re-drain. Items that were handed to
+          // other woken receivers may still be buffered; Disconnected is only
+          // reported once the buffer is empty.
         }
       }
     }
 
+    // True iff an earlier poll left a WAITING entry of this future in the queue.
+    let was_queued = this.is_registered;
     this.is_registered = true;
     match this.receiver.shared.poll_recv_internal(cx, state_ptr) {
       Poll::Ready(res) => {
         this.is_registered = false;
+        if was_queued {
+          // Completed without having been woken: our entry is still queued and
+          // must not outlive this future.
+          let mut guard = this.receiver.shared.internal.lock();
+          guard
+            .waiting_async_receivers
+            .retain(|w| w.state != state_ptr);
+        }
         Poll::Ready(res)
       }
       Poll::Pending => Poll::Pending,
@@ -756,10 +794,14 @@ impl<'a, T: Send> Future for RecvFuture<'a, T> {
   }
 }
 
-impl<T: Send> Drop for RecvFuture<'_, T> {
-  fn drop(&mut self) {
+impl<T: Send> RecvFuture<'_, T> {
+  /// Unlinks a queued registration. If this future had already consumed a
+  /// wake-up (SUCCESS_SPACE) that it is not going to use, the wake-up is passed
+  /// on to the next parked receiver so the buffered item is not left unannounced.
+  fn cancel_registration(&mut self) {
     if self.is_registered {
-      let _ = self.state.compare_exchange(
+      self.is_registered = false;
+      let prev = self.state.compare_exchange(
         STATE_WAITING,
         STATE_CANCELLED,
         Ordering::SeqCst,
@@ -771,7 +813,16 @@ impl<T: Send> Drop for RecvFuture<'_, T> {
       guard
         .waiting_async_receivers
         .retain(|w| w.state != state_ptr);
+      if prev == Err(STATE_SUCCESS_SPACE) && !guard.is_empty() {
+        guard.wake_one_receiver();
+      }
     }
+  }
+}
+
+impl<T: Send> Drop for RecvFuture<'_, T> {
+  fn drop(&mut self) {
+    self.cancel_registration();
   }
 }
 
